@@ -171,6 +171,22 @@ KERNELS += [
                 (r"sinogram \*= scale_factor;", "K_SCALE_OBJECT(g_scale_factor);", 1),
                 (r"bin\.view_num\(\)", "bin.view_num", 3), (r"(?<![\w>.])get_(min|max)_view_num\(\)", r"self->\1_view", 2)]
          + PDS_RULES("s", 2, 2, 0, 0, True) + PATHRULES(0, 1, 0, 0) + [(r"K_THROW\(0\);", "K_THROW();", 2)]),
+    dict(name="K_pds_get_segment_by_sinogram", file=PDS, cxx_name="ProjDataFromStream::get_segment_by_sinogram (from the storage-order test)",
+         func=r"ProjDataFromStream::get_segment_by_sinogram\(const int segment_num, const int timing_num\) const",
+         span=(r"if \(get_storage_order\(\) == Segment_AxialPos_View_TangPos", r"return SegmentBySinogram<float>\(get_segment_by_view\(segment_num, timing_num\)\);\s*\}"),
+         c_header="void K_pds_get_segment_by_sinogram(const struct PD* self, const int segment_num, const int timing_num)", loops=0,
+         rules=[(r"SegmentBySinogram<float> segment\(proj_data_info_sptr, segment_num, timing_num\);", "", 1), (r"float\(1\)", "1.F", 1),
+                READ("segment", 4, "0", "0", "bin.segment_num", 1), (r"segment \*= scale_factor;", "K_SCALE_OBJECT(g_scale_factor);", 1), (r"return segment;", "return;", 1),
+                (r"return SegmentBySinogram<float>\(get_segment_by_view\(segment_num, timing_num\)\);", "{ K_pds_get_segment_by_view(self, segment_num, timing_num); return; }", 1)]
+         + PDS_RULES("s", 2, 1, 0, 0, True) + PATHRULES(1, 1, 0, 0) + [(r"K_THROW\(0\);", "K_THROW();", 2)]),
+    dict(name="K_pds_get_segment_by_view", file=PDS, cxx_name="ProjDataFromStream::get_segment_by_view (from the storage-order test)",
+         func=r"ProjDataFromStream::get_segment_by_view\(const int segment_num, const int timing_pos\) const",
+         span=(r"if \(get_storage_order\(\) == Segment_View_AxialPos_TangPos", r"return SegmentByView<float>\(get_segment_by_sinogram\(segment_num, timing_pos\)\);"),
+         c_header="void K_pds_get_segment_by_view(const struct PD* self, const int segment_num, const int timing_pos)", loops=0,
+         rules=[(r"SegmentByView<float> segment\(proj_data_info_sptr, segment_num, timing_pos\);", "", 1), (r"float\(1\)", "1.F", 1),
+                READ("segment", 5, "0", "0", "bin.segment_num", 1), (r"segment \*= scale_factor;", "K_SCALE_OBJECT(g_scale_factor);", 1), (r"return segment;", "return;", 1),
+                (r"return SegmentByView<float>\(get_segment_by_sinogram\(segment_num, timing_pos\)\);", "{ K_pds_get_segment_by_sinogram(self, segment_num, timing_pos); return; }", 1)]
+         + PDS_RULES("s", 2, 1, 0, 0, True) + PATHRULES(1, 1, 0, 0) + [(r"K_THROW\(0\);", "K_THROW();", 2)]),
     dict(name="K_pds_set_segment_by_sinogram", file=PDS, cxx_name="ProjDataFromStream::set_segment(const SegmentBySinogram<float>&) (from 'const int segment_num = ...')",
          func=r"ProjDataFromStream::set_segment\(const SegmentBySinogram<float>& segmentbysinogram_v\)",
          span=(r"const int segment_num = segmentbysinogram_v\.get_segment_num\(\);", r"return set_segment\(segmentbyview\);\s*\}"),
@@ -306,7 +322,8 @@ def jobs(tier, gen_dir):
     for V, T in PATH_VT[tier]:
         for E in ([4] if tier == "quick" else [1, 4]):
             d = {"C02_V": V, "C02_T": T, "C02_E": E}
-            for k, lc, rp in (("K_pds_get_bin_value", False, []), ("K_pds_get_viewgram", True, []), ("K_pds_get_sinogram", True, []), ("K_pds_set_bin_value", False, []), ("K_pds_set_viewgram", True, []), ("K_pds_set_sinogram", True, []),
+            for k, lc, rp in (("K_pds_get_segment_by_sinogram", False, ["K_pds_get_segment_by_view"]), ("K_pds_get_segment_by_view", False, ["K_pds_get_segment_by_sinogram"]),
+                              ("K_pds_get_bin_value", False, []), ("K_pds_get_viewgram", True, []), ("K_pds_get_sinogram", True, []), ("K_pds_set_bin_value", False, []), ("K_pds_set_viewgram", True, []), ("K_pds_set_sinogram", True, []),
                               ("K_pds_set_segment_by_sinogram", False, ["K_pds_set_segment_by_view"]), ("K_pds_set_segment_by_view", False, ["K_pds_set_segment_by_sinogram"])):
                 J("%s/V=%d/T=%d/E=%d" % (k, V, T, E), "h_" + k, enforce=k, repl=["K_pds_get_offset"] + rp, lc=lc, defs=d, kernels=[k],
                   params={"num_views": V, "num_tangential_poss": T, "bytes_per_element": E}, shards=SH + 2, timeout=900 if tier == "quick" else 2400)
@@ -326,11 +343,14 @@ def jobs(tier, gen_dir):
                        defines={"CANARY_" + k: None, "C02_V": 2, "C02_T": 2, "C02_E": 2}, expect_fail=r"%s\.postcondition" % k, no_base_flags=True, timeout=300, object_bits=10,
                        backend="kissat"))
     # vacuity canaries of the access-path kernels (their preconditions must be satisfiable)
-    for k, rp in (("K_pd_set_segment_by_view", []), ("K_pd_get_segment_by_view", []), ("K_pd_set_related_viewgrams", []), ("K_pd_fill_value", []), ("K_pd_fill_from", []),
-                  ("K_pdm_set_viewgram", ["K_pdm_get_index"]), ("K_pdm_get_viewgram", ["K_pdm_get_index"]), ("K_pdm_set_sinogram", ["K_pdm_get_index"]),
-                  ("K_pdm_get_sinogram", ["K_pdm_get_index"]), ("K_pds_set_bin_value", ["K_pds_get_offset"]), ("K_pds_set_viewgram", ["K_pds_get_offset"]),
-                  ("K_pds_set_sinogram", ["K_pds_get_offset"]), ("K_pds_set_segment_by_sinogram", ["K_pds_get_offset", "K_pds_set_segment_by_view"]),
-                  ("K_pds_set_segment_by_view", ["K_pds_get_offset", "K_pds_set_segment_by_sinogram"])):
+    IDX, OFF = ["K_pdm_get_index"], ["K_pds_get_offset"]
+    CAN = [("K_pd_set_segment_by_view", []), ("K_pd_get_segment_by_view", []), ("K_pd_set_related_viewgrams", []), ("K_pd_fill_value", []), ("K_pd_fill_from", [])]
+    CAN += [(k, IDX) for k in ("K_pdm_set_viewgram", "K_pdm_get_viewgram", "K_pdm_set_sinogram", "K_pdm_get_sinogram", "K_pdm_get_bin_value", "K_pdm_set_bin_value",
+                               "K_pdm_set_segment", "K_pdm_get_segment")]
+    CAN += [(k, OFF) for k in ("K_pds_set_bin_value", "K_pds_set_viewgram", "K_pds_set_sinogram", "K_pds_get_bin_value", "K_pds_get_viewgram", "K_pds_get_sinogram")]
+    CAN += [("K_pds_set_segment_by_sinogram", OFF + ["K_pds_set_segment_by_view"]), ("K_pds_set_segment_by_view", OFF + ["K_pds_set_segment_by_sinogram"]),
+            ("K_pds_get_segment_by_sinogram", OFF + ["K_pds_get_segment_by_view"]), ("K_pds_get_segment_by_view", OFF + ["K_pds_get_segment_by_sinogram"])]
+    for k, rp in CAN:
         out.append(Job("c02/canary/" + k, HARNESS, "h_" + k, enforce=k, replace=rp, kernels=[k], kind="canary", loop_contracts=True,
                        defines={"CANARY_" + k: None, "C02_V": 2, "C02_T": 2, "C02_E": 2}, expect_fail=r"%s\.postcondition" % k, no_base_flags=True, timeout=600, object_bits=10,
                        backend="kissat"))
